@@ -15,7 +15,7 @@ use std::cell::RefCell;
 use std::io::{BufWriter, Read, Seek as IoSeek, SeekFrom, Write};
 use std::rc::Rc;
 
-pub const RULE: &str = "scenarios: encode+finalize through sample/byte/channel writers (seek table on/off × declared/undeclared) directly over the device and over BufWriter<device> passed by value (as the crate's own create(path) does); FlacStreamWriter::write ×2; write_blocks; update_file in place (shrink / equal / grow into padding) and rebuilt; decode through 3 readers, verify_reader, generate_seektable and update_file under failing reads. For each scenario EVERY index n of the n-th write/flush/seek (resp. read) call × {permanent from n, once at n, Interrupted at n, 1-byte short transfer at n}; pairs of faults: quick on update_file scenarios (permanent/once), thorough on all scenarios. A state is one (scenario, fault schedule); outcomes = (scenario, kind, api result, contents equal?)";
+pub const RULE: &str = "scenarios: encode+finalize through sample/byte/channel writers (seek table on/off × declared/undeclared) directly over the device (at offset 0 and behind a 24-byte foreign prefix) and over BufWriter<device> passed by value (as the crate's own create(path) does); FlacStreamWriter::write ×2; write_blocks; update_file in place (shrink / equal / grow into padding) and rebuilt; decode through 3 readers, verify_reader, generate_seektable and update_file under failing reads. For each scenario EVERY index n of the n-th write/flush/seek (resp. read) call × {permanent from n, once at n, Interrupted at n, 1-byte short transfer at n}; pairs of faults: quick on update_file scenarios (permanent/once), thorough on all scenarios. A state is one (scenario, fault schedule); outcomes = (scenario, kind, api result, contents equal?)";
 pub const ASSUMPTIONS: &[&str] = &["fault sequences with more than 2 faults are not explored", "File-backed entry points (create/open/update(path)) are the same generic code over BufWriter<File>/File; they are represented by the BufWriter<device> scenarios"];
 pub fn bounds(quick: bool) -> Value {
     json!({"single_faults": "every call index × 4 kinds, all scenarios", "pairs": if quick { "update_file scenarios, kinds {permanent, once}" } else { "all scenarios, all kinds" }})
@@ -84,10 +84,13 @@ fn scenarios() -> Vec<Scen> {
     for wk in ["sample", "byte", "channel"] {
         for seek in [Seek::Frames(1), Seek::Off] {
             for declared in [true, false] {
-                for buffered in [false, true] {
+                for (buffered, offset) in [(false, 0usize), (true, 0), (false, 24)] {
                     let (pcm, sig) = (pcm.clone(), sig.clone());
-                    let name = format!("encode-{wk}-{}-{}-{}", if seek == Seek::Off { "noseek" } else { "seek" }, if declared { "declared" } else { "undeclared" }, if buffered { "bufwriter" } else { "direct" });
-                    v.push((name, Target::Writes, false, vec![], Box::new(move |env: &Env| {
+                    let name = format!("encode-{wk}-{}-{}-{}{}", if seek == Seek::Off { "noseek" } else { "seek" }, if declared { "declared" } else { "undeclared" }, if buffered { "bufwriter" } else { "direct" }, if offset > 0 { "-offset24" } else { "" });
+                    // "-offset24": the stream does not start at offset 0 of the writer (a 24-byte foreign prefix precedes it)
+                    let initial: Vec<u8> = (0..offset).map(|i| 0xC0 + i as u8).collect();
+                    v.push((name, Target::Writes, false, initial, Box::new(move |env: &Env| {
+                        env.primary.0.borrow_mut().inner.pos = offset as u64;
                         let opt = Opt { seek, declared, pad: if buffered { Pad::Size(5) } else { Pad::Size(64) }, ..Opt::base16() };
                         let o = opt.to_options()?;
                         macro_rules! drive {
